@@ -329,6 +329,7 @@ class Prog:
         self.types = ["1", "2"]
         self.topics = ["1", "2"]
         self.cancel_p = 0.08
+        self.claimable = []       # weak handles that scripts sent earlier will put into the pool: (name, kind)
         self.ops = []
         self.counter = counter
 
@@ -346,8 +347,15 @@ class Prog:
             if op == "sleep":
                 self.ops.append({"op": "sleep", "d": rng.randint(1, 3)})
                 return True
-            if op == "publish":
-                self.ops.append({"op": "publish", "ty": rng.choice(self.topics)})
+            if op in ("publish", "try_publish"):
+                self.ops.append({"op": op, "ty": rng.choice(self.topics)})
+                return True
+            if op == "claim":
+                if not self.claimable:
+                    continue
+                x, k = self.claimable.pop(0)
+                self.ops.append({"op": "claim", "h": x})
+                self.h[x] = k
                 return True
             if op in ("bpublish", "bsubscribe", "bunsubscribe"):
                 bs = [x for x, k in self.h.items() if k == "baddr"]
